@@ -107,12 +107,24 @@ def rule_compact(ctx):
     # data selection
     sel = None
     for st in flow.stmts:
-        if isinstance(st, ast.Assign) and isinstance(st.targets[0], ast.Subscript) and calls_in(st.value, "isel") and any(st is x for x in ast.walk(lp)):
+        if isinstance(st, ast.Assign) and isinstance(st.targets[0], (ast.Subscript, ast.Name)) and calls_in(st.value, "isel") and any(st is x for x in ast.walk(lp)):
             c = calls_in(st.value, "isel")[0]
             kw = {k.arg: k.value for k in c.keywords}
-            if "collocation" in kw:
-                sel = (st, str(norm(R(st.targets[0].slice, st))), str(norm(R(c.func.value, st))), str(norm(R(kw["collocation"], st))), kw["collocation"])
-                break
+            if "collocation" not in kw:
+                continue
+            if isinstance(st.targets[0], ast.Subscript):
+                key_e, key_at = st.targets[0].slice, st
+            else:
+                # the selection is worked on under a local name and stored under the dataset's name afterwards
+                tname = st.targets[0].id
+                later = [s2 for s2 in flow.stmts if isinstance(s2, ast.Assign) and isinstance(s2.targets[0], ast.Subscript) and any(s2 is x for x in ast.walk(lp))
+                         and flow._order(s2) > flow._order(st) and isinstance(s2.targets[0].value, ast.Name) and s2.targets[0].value.id != tname
+                         and any(isinstance(n_, ast.Name) and n_.id == tname for n_ in ast.walk(s2.value))]
+                if len(later) != 1:
+                    raise AnalysisError("_create_return: the selection %s is not stored under one key afterwards (%d stores)" % (tname, len(later)))
+                key_e, key_at = later[0].targets[0].slice, later[0]
+            sel = (st, str(norm(R(key_e, key_at))), str(norm(R(c.func.value, st))), str(norm(R(kw["collocation"], st))), kw["collocation"])
+            break
     if sel is None:
         raise AnalysisError("_create_return: the selection output[name] = dataset.isel(collocation=...) was not found")
     ctx.ob("_create_return.order", sel[2] == DS and sel[1] == NM, "output[%s] = %s.isel(...)" % (sel[1], sel[2]),
